@@ -428,10 +428,123 @@ def _domain_class_of(repo: Repo, bci: ClassInfo) -> Optional[ClassInfo]:
     return None
 
 
+# ---------------------------------------------------------------- R-C05-4
+def r4_cramer(repo: Repo, rep):
+    from ..absdom.poly import RF, NotPoly, component_of, to_rf
+    R = rep.rule("R-C05-4", "_solve_lgs returns the barycentric coordinates (x, y) with x*dir_1 + y*dir_2 == points as a rational identity", floor=2,
+                 why="the interior/boundary predicates of parallelogram and triangle test these coordinates against [0,1]; a wrong sign or "
+                     "denominator (e.g. |det| for det) accepts the mirrored shape for one vertex orientation")
+    for cname, mod in (("Parallelogram", "parallelogram"), ("Triangle", "triangle")):
+        ci = repo.cls(f"problem.domains.domain2D.{mod}.{cname}")
+        fi = ci.methods.get("_solve_lgs")
+        if fi is None:
+            rep.undecided(R, ci.module.relpath, ci.fq, "_solve_lgs helper", "vanished: idiom not recognised")
+            continue
+        rep.saw(fi)
+        pn, d1, d2 = fi.params[1], fi.params[2], fi.params[3]
+
+        def atom(n):
+            c = component_of(n)
+            if c is not None and isinstance(c[0], ast.Name) and c[0].id in (pn, d1, d2):
+                k = c[1]
+                k = k[1] if isinstance(k, tuple) else k
+                return RF.atom(f"{c[0].id}.{k}")
+            if isinstance(n, ast.Call) and ends(attr_chain(n.func), "abs") and len(n.args) == 1:
+                inner = to_rf(n.args[0], atom)
+                return RF.atom(f"|{inner!r}|")
+            if isinstance(n, ast.Call) and isinstance(n.func, ast.Attribute) and n.func.attr == "abs" and not n.args:
+                inner = to_rf(n.func.value, atom)
+                return RF.atom(f"|{inner!r}|")
+            return None
+        for p in paths(fi.node):
+            if p.ret is RAISE:
+                continue
+            r = p.ret
+            if not (isinstance(r, ast.Tuple) and len(r.elts) == 2):
+                rep.undecided(R, fi.site(), fi.fq, "returns (bary_x, bary_y)", dump(r)[:80])
+                continue
+            from ..inline import expand_helpers
+            r = expand_helpers(repo, ci, r)
+            try:
+                bx, by = to_rf(r.elts[0], atom), to_rf(r.elts[1], atom)
+                ok = True
+                detail = []
+                for k in (0, 1):
+                    lhs = bx * RF.atom(f"{d1}.{k}") + by * RF.atom(f"{d2}.{k}")
+                    good = lhs == RF.atom(f"{pn}.{k}")
+                    ok = ok and good
+                    detail.append(f"component {k}: x*{d1}.{k} + y*{d2}.{k} = {lhs!r}")
+                rep.check(R, ok, fi.site(), fi.fq, f"x*{d1} + y*{d2} == {pn} (both components)", "; ".join(detail)[:300], f"{bx!r} | {by!r}")
+            except NotPoly as e:
+                rep.undecided(R, fi.site(), fi.fq, "barycentric coordinates are rational functions of the components", str(e))
+
+
+# ---------------------------------------------------------------- R-C05-5
+def _is_copy(expr: ast.AST, pname: str) -> Optional[bool]:
+    """expanded receiver of an in-place write: True = fresh copy, False = the caller's object / a view of it, None = unrelated"""
+    e = expr
+    while True:
+        if isinstance(e, ast.Attribute) and e.attr in ("as_tensor", "_t"):
+            e = e.value
+            continue
+        break
+    if isinstance(e, ast.Name):
+        return False if e.id == pname else None
+    if isinstance(e, ast.Subscript):
+        root = e.value
+        while isinstance(root, ast.Attribute) and root.attr in ("as_tensor", "_t"):
+            root = root.value
+        if isinstance(root, ast.Name) and root.id == pname:
+            idx = e.slice.elts if isinstance(e.slice, ast.Tuple) else [e.slice]
+            adv = any(isinstance(i, (ast.List, ast.ListComp)) or (isinstance(i, ast.Call) and attr_chain(i.func) == "list") for i in idx)
+            return True if adv else False
+        return _is_copy(e.value, pname)
+    if isinstance(e, ast.Call):
+        if isinstance(e.func, ast.Attribute) and e.func.attr in ("clone", "detach", "float", "double", "repeat", "join", "to"):
+            return True if e.func.attr in ("clone", "repeat", "join") else _is_copy(e.func.value, pname)
+        return None
+    if isinstance(e, ast.BinOp):
+        return None  # result of arithmetic: a new tensor
+    return None
+
+
+def r5_purity(repo: Repo, rep):
+    R = rep.rule("R-C05-5", "no `_contains` writes into (a view of) the points or params it was given", floor=20,
+                 why="operands of a Boolean operation are queried one after the other with the same Points object; a membership test that "
+                     "shifts it in place changes what the next operand sees")
+    dom = repo.cls("problem.domains.domain.Domain")
+    for ci in repo.subclasses(dom):
+        fi = ci.methods.get("_contains")
+        if fi is None or len(fi.params) < 2:
+            continue
+        rep.saw(fi)
+        bad = []
+        for pname in fi.params[1:3]:
+            for p in paths(fi.node):
+                for e in p.events:
+                    tgt = None
+                    if e.kind == "store":
+                        tgt = e.target.value
+                    elif e.kind == "aug":
+                        tgt = e.target
+                    elif e.kind == "call" and isinstance(e.value, ast.Call) and isinstance(e.value.func, ast.Attribute) and e.value.func.attr.endswith("_") and not e.value.func.attr.startswith("_"):
+                        tgt = e.value.func.value
+                    if tgt is None:
+                        continue
+                    # `x -= v` on a python number / rebinding is not a write; on the original name it is
+                    c = _is_copy(tgt, pname)
+                    if c is False:
+                        bad.append(f"{dump(e.node)[:70]} writes into `{pname}`")
+        bad = sorted(set(bad))
+        rep.check(R, not bad, fi.site(), fi.fq, "points/params are only read", "; ".join(bad[:2]), "; ".join(bad[:2]))
+
+
 def run(repo: Repo, rep):
     r1_truth_tables(repo, rep)
     r2_pullback(repo, rep)
     r3_rowwise(repo, rep)
+    r4_cramer(repo, rep)
+    r5_purity(repo, rep)
 
 
 _U = "src/torchphysics/problem/domains/domainoperations/union.py"
